@@ -2,7 +2,7 @@
 // C08 - mutual exclusion, reader/writer rules, truthful try/upgrade/downgrade, FIFO hand-off, no lost grant.
 // -p kind=spin|queuing|mutex|spin_rw|queuing_rw|rw|spec|spec_rw   -p prog="W|R|U"  (threads '|', ops ',')
 //   W write section   R read section   U read->upgrade->write section   D write->downgrade->read section
-//   t try-write section   r try-read section
+//   t try-write section   r try-read section   E write->downgrade->keep the read lock until all waiting readers are in (programs with R and E only)
 #include <oneapi/tbb/spin_mutex.h>
 #include <oneapi/tbb/queuing_mutex.h>
 #include <oneapi/tbb/spin_rw_mutex.h>
@@ -13,7 +13,7 @@
 #include "vfh.h"
 using namespace vfh;
 
-static int payload = 0, writers = 0, readers = 0, version = 0;
+static int payload = 0, writers = 0, readers = 0, version = 0, r_waiting = 0;
 struct Ent { int thread; char op; bool writer; unsigned long req_steps, entry_stamp; unsigned long qpos; bool blocking; };
 static std::vector<Ent> entries;
 static std::string outcome;
@@ -37,7 +37,7 @@ template <class M, bool RW> struct Run { M m; using A = Ad<M, RW>; using L = typ
     void op(char c, L& l) { Ent e; e.thread = vf_self(); e.op = c; e.req_steps = vf_steps(); e.blocking = false; e.qpos = 0; int nb = vf_nblocks();
         switch (c) {
         case 'W': A::acquire(l, m, true); e.blocking = true; e.writer = true; e.entry_stamp = vf_stamp(); entries.push_back(e); enter_w("lock"); leave_w(); l.release(); break;
-        case 'R': A::acquire(l, m, false); e.blocking = true; e.writer = false; e.entry_stamp = vf_stamp(); entries.push_back(e); enter_r("lock_shared"); vf_point(); leave_r(); l.release(); break;
+        case 'R': ++r_waiting; A::acquire(l, m, false); --r_waiting; e.blocking = true; e.writer = false; e.entry_stamp = vf_stamp(); entries.push_back(e); enter_r("lock_shared"); vf_point(); leave_r(); l.release(); break;
         case 't': { bool ok = A::try_acquire(l, m, true); if (vf_nblocks() != nb) vf_fail("try_lock went to sleep"); outcome += ok ? "t1" : "t0"; if (ok) { enter_w("try_lock"); leave_w(); l.release(); } } break;
         case 'r': { bool ok = A::try_acquire(l, m, false); if (vf_nblocks() != nb) vf_fail("try_lock_shared went to sleep"); outcome += ok ? "r1" : "r0"; if (ok) { enter_r("try_lock_shared"); vf_point(); leave_r(); l.release(); } } break;
         case 'U': { A::acquire(l, m, false); enter_r("lock_shared"); int seen = version; vf_point(); leave_r(); bool ok = A::upgrade(l); outcome += ok ? "u1" : "u0";
@@ -45,10 +45,16 @@ template <class M, bool RW> struct Run { M m; using A = Ad<M, RW>; using L = typ
                     enter_w("upgraded"); leave_w(); l.release(); } break;
         case 'D': { A::acquire(l, m, true); enter_w("lock"); leave_w(); ++readers; /* becomes a reader atomically */ A::downgrade(l); int seen = version; if (writers) vf_fail("writer inside right after downgrade");
                     vf_plain_read(&payload); vf_point(); if (version != seen || writers) vf_fail("downgrade_to_reader let a writer in"); leave_r(); l.release(); } break;
+        case 'E': { A::acquire(l, m, true); enter_w("lock"); leave_w();
+                    for (int j = 0; j < 2000 && !vf_others_idle(); j++) vf_yield();   /* give the readers time to fall asleep in lock_shared (they spin first) */
+                    ++readers; A::downgrade(l);   /* keeps the read lock until every reader that is waiting in lock_shared got in: a downgrade must let (and wake) them in */
+                    for (int j = 0; j < 300 && r_waiting > 0; j++) vf_yield();
+                    if (r_waiting > 0) vf_fail("%d reader(s) still wait in lock_shared although the writer downgraded to a reader long ago and no writer is waiting (lost wake-up in downgrade)", r_waiting);
+                    leave_r(); l.release(); } break;
         default: vf_fail("bad op %c", c); } }
     void go(const char* tailaddr_name) {
         std::vector<std::string> progs(1); for (const char* p = vf_param("prog", "W|W|W"); *p; p++) { if (*p == '|') progs.emplace_back(); else if (*p != ',') progs.back() += *p; }
-        int expect_writes = 0; for (auto& s : progs) for (char c : s) if (c == 'W' || c == 'U' || c == 'D') expect_writes++;
+        int expect_writes = 0; for (auto& s : progs) for (char c : s) if (c == 'W' || c == 'U' || c == 'D' || c == 'E') expect_writes++;
         const void* tail = tail_addr(); if (tail) vf_watch(tail, sizeof(void*));
         vf_liveness(1);
         bool reuse = vf_param_int("reuse", 0) != 0;
